@@ -105,6 +105,8 @@ mod geom;
 mod rasterizer;
 mod stroke;
 mod tests;
+#[cfg(raqote_verif)]
+mod verif_trace;
 
 mod path_builder;
 pub use path_builder::*;
